@@ -765,7 +765,7 @@ def evaluate_set(s, wd, cfg, rng, stats):
     # every report has a code: no bare `Advice:` / `Warning:` / `Error:` report next to the coded ones
     if not panicked:
         for line in base_r.err.decode(errors="replace").split("\n"):
-            if re.match(r"^(Advice|Warning): ", line) or (line.startswith("Error: ") and base_heads and not line.startswith(("Error: compilation failed", "Error: Failed", "Error: No such", "Error: cannot"))):
+            if re.match(r"^(Advice|Warning): ", line) or (line.startswith("Error: ") and base_heads and not line.startswith(("Error: compilation failed", "Error: Failed", "Error: No such", "Error: cannot", "Error: out of range integral"))):
                 viol.append(("report_without_code", "a report without a code: %r" % line[:160], {}))
                 break
     # a failing compilation says why in a diagnostic of its own: a code from the catalogue
@@ -835,6 +835,9 @@ def check_locations_structured(s, wd, stats):
     r = run_proc([PWORKER, "history", "spec.json"], wd, sim_env(base_env(), entropy=1))
     stats["runs"] += 1
     viol = []
+    # a file given twice: the command-line tool refuses the second artefact (--out-dir) before it
+    # analyses the rest, the library goes on - the rendered report and the structured list differ by design
+    dup_names = len(set(s["order"])) < len(s["order"])
     starts = set()      # (file, line, column) of the start of every Location of every diagnostic
     label_texts = {}    # (file, line) -> texts under the single-line Locations that start on that line
     seen_errors = set()
@@ -924,7 +927,7 @@ def check_locations_structured(s, wd, stats):
                     viol.append(("lexical_span_not_at_offending_text", "%s is located at %r (span %d..%d of %s)" % (kind, t1[a1:b1][:20], a1, b1, lm.group(2))))
             # what the diagnostic has to say must be in the rendered report: a
             # label that ariadne drops (span outside the source) loses it silently
-            rendered = stats.get("base_stderr")
+            rendered = stats.get("base_stderr") if not dup_names else None
             if rendered is not None and rec.get("verdict") in ("errors", "surface_errors") and \
                     e.startswith(("UnexpectedEndOfFile {", "UnexpectedToken {")):
                 for text in EXPECTATION.findall(e):
@@ -945,7 +948,7 @@ def check_locations_structured(s, wd, stats):
                      (renamed_reports, len(seen_errors), sorted(x or "" for x in seen_errors)[:3])))
     # every `[ file:line:col ]` header of the rendered report is the start of one
     # of the diagnostic's locations (wrong index type, shifted columns)
-    rendered = stats.get("base_stderr")
+    rendered = stats.get("base_stderr") if not dup_names else None
     if rendered and have_all and starts and not viol:
         for fn, line, col in HDR.findall(rendered):
             if fn in texts and texts[fn] is not None and (fn, int(line), int(col)) not in starts:
